@@ -338,13 +338,19 @@ Sync ==
             /\ m' = CloseSync(m, c, s, e.n)
             /\ bad' = bad
        [] e.op = "ep_close" ->
+            \* (the code the endpoint was closed with is remembered under the key <<-1 - endpoint, 9>>)
             /\ m' = [m EXCEPT !.epClosed = @ \cup {e.e},
-                              !.closedBy = [x \in DOMAIN @ \cup {cs \in m.conns : EpOf(cs[1], cs[2]) = e.e} |->
-                                              IF x \in m.syncClosed THEN @[x]
+                              !.closedBy = [x \in DOMAIN @ \cup {cs \in m.conns : EpOf(cs[1], cs[2]) = e.e} \cup {<<-1 - e.e, 9>>} |->
+                                              IF x = <<-1 - e.e, 9>> THEN At(@, x, {}) \cup {e.n}
+                                              ELSE IF x \in m.syncClosed THEN @[x]
                                               ELSE IF EpOf(x[1], x[2]) = e.e THEN At(@, x, {}) \cup {e.n} ELSE @[x]]]
             /\ bad' = bad
        [] e.op = "inc_accept" ->
-            /\ m' = IF e.res = "ok" THEN [m EXCEPT !.conns = @ \cup {<<c, 0>>}] ELSE [m EXCEPT !.refused = @ \cup {c}]
+            \* a connection accepted on an endpoint that has been closed is closed from its first moment
+            /\ m' = IF e.res = "ok"
+                    THEN [m EXCEPT !.conns = @ \cup {<<c, 0>>},
+                                   !.closedBy = IF 0 \in m.epClosed THEN Set(@, <<c, 0>>, At(@, <<-1, 9>>, {})) ELSE @]
+                    ELSE [m EXCEPT !.refused = @ \cup {c}]
             /\ bad' = bad
        [] e.op \in {"inc_refuse", "inc_drop", "inc_ignore", "inc_retry"} ->
             /\ m' = [m EXCEPT !.refused = IF e.op \in {"inc_refuse", "inc_drop"} THEN @ \cup {c} ELSE @]
